@@ -288,4 +288,82 @@ theorem rebuild_if6_fresh (r : Rule) (month year : Int) (mrange wdaymask : List 
       · simp only [he, Bool.false_eq_true, if_false]
         cases List.foldlM (rangeStep wdaymask (nw0 :: nws)) (List.replicate yearlen.toNat 0) rs <;> rfl
 
+/-! ### the whole of `rebuild` on a fresh `_iterinfo` -/
+
+theorem rebuild_bind (r : Rule) (year month : Int) :
+    RRule.rebuild r year month =
+      if year < 1 ∨ year > 9999 then .error .ValueError
+      else
+        (wnomaskOf r year (baseInfo year)).bind fun wno =>
+        (buildNwdaymask r (baseInfo year).yearlen (baseInfo year).mrange (baseInfo year).wdaymask month).bind fun nwd =>
+        (eastermaskOf r year (baseInfo year)).bind fun em =>
+        .ok { baseInfo year with wnomask := wno, nwdaymask := nwd, eastermask := em } := by
+  unfold RRule.rebuild
+  split
+  · rfl
+  · split
+    · simp only [*, error_bind]
+    · simp only [*, ok_bind]
+      split
+      · simp only [*, error_bind]
+      · simp only [*, ok_bind]
+        split <;> simp only [*, error_bind, ok_bind]
+
+theorem validDate_jan1 (year : Int) : Cal.validDate year 1 1 = decide (¬ (year < 1 ∨ year > 9999)) := by
+  simp [Cal.validDate, Cal.ValidDate, Cal.ValidYMD, Cal.daysInMonth]
+
+/-- **`_iterinfo.rebuild` as written now, called on a fresh `_iterinfo`, is the model's `rebuild`**: the same
+    exception or the same twelve slots, with `lastyear = year` and `lastmonth` = the month (the last BYMONTH member for
+    YEARLY rules with BYMONTH and nth weekdays — the loop variable of `for month in rr._bymonth` shadows the parameter). -/
+theorem gen_rebuild_fresh (r : Rule) (year month : Int) :
+    Gen.rebuild r {} year month =
+      (RRule.rebuild r year month).bind fun info =>
+        .ok (RrPy.II.ofInfo info (some year) (some (if truthy r.bynweekday = true then nwMonth r month else month))) := by
+  rw [rebuild_bind]
+  unfold Gen.rebuild Gen.rebuild_if3
+  have hne : (some year ≠ (none : Option Int)) = True := by simp
+  simp only [hne, if_true, RrPy.mkDate, validDate_jan1, bind, pure, Except.pure]
+  by_cases hy : year < 1 ∨ year > 9999
+  · simp [hy]
+  · have h0 := (weekdayOfOrd_range (Cal.toOrdinal year 1 1)).1
+    have h1 := (weekdayOfOrd_range (Cal.toOrdinal year 1 1)).2
+    have e1 := rebuild_if1_eq (Cal.isLeap year) (Cal.weekdayOfOrd (Cal.toOrdinal year 1 1)) h0 h1
+    have e2 : Gen.rebuild_if2 r (Gen.WDAYMASK.drop (Cal.weekdayOfOrd (Cal.toOrdinal year 1 1)).toNat)
+        (365 + RrPy.b2i (Cal.isLeap year)) (Cal.weekdayOfOrd (Cal.toOrdinal year 1 1)) year =
+        wnomaskOf r year (baseInfo year) := by
+      rw [← rebuild_if2_eq r (baseInfo year) year]
+      cases hl : Cal.isLeap year <;> simp [baseInfo, hl, RrPy.b2i]
+    have e6 : Gen.rebuild_if6 r month none none (if Cal.isLeap year = true then Gen.M366RANGE else Gen.M365RANGE) none
+        (Gen.WDAYMASK.drop (Cal.weekdayOfOrd (Cal.toOrdinal year 1 1)).toNat) (365 + RrPy.b2i (Cal.isLeap year)) year =
+        (buildNwdaymask r (baseInfo year).yearlen (baseInfo year).mrange (baseInfo year).wdaymask month).bind fun nw =>
+          .ok (if truthy r.bynweekday = true then nwMonth r month else month, nw) := by
+      rw [← rebuild_if6_fresh r month year]
+      cases hl : Cal.isLeap year <;> simp [baseInfo, hl, RrPy.b2i]
+    have e7 : Gen.rebuild_if7 r none (365 + RrPy.b2i (Cal.isLeap year)) (Cal.toOrdinal year 1 1) year =
+        if truthy r.byeaster = true then eastermaskOf r year (baseInfo year) else .ok none := by
+      rw [← rebuild_if7_eq r none (baseInfo year) year]
+      cases hl : Cal.isLeap year <;> simp [baseInfo, hl, RrPy.b2i]
+    simp only [hy, decide_true, decide_false, not_false_eq_true, if_true, if_false, ok_bind, RrPy.toordinal, RrPy.weekday, e1, e2]
+    cases wnomaskOf r year (baseInfo year) with
+    | error e => rfl
+    | ok wno =>
+      simp only [ok_bind, e6]
+      cases buildNwdaymask r (baseInfo year).yearlen (baseInfo year).mrange (baseInfo year).wdaymask month with
+      | error e => rfl
+      | ok nwd =>
+        simp only [ok_bind, e7]
+        have he : (if truthy r.byeaster = true then eastermaskOf r year (baseInfo year) else Except.ok none) =
+            eastermaskOf r year (baseInfo year) := by
+          unfold eastermaskOf
+          match r.byeaster with
+          | none => rfl
+          | some [] => rfl
+          | some (_ :: _) => rfl
+        rw [he]
+        cases eastermaskOf r year (baseInfo year) with
+        | error e => rfl
+        | ok em =>
+          simp only [ok_bind, RrPy.II.ofInfo, baseInfo]
+          cases Cal.isLeap year <;> cases Cal.isLeap (year + 1) <;> simp [RrPy.b2i]
+
 end RRuleGen
